@@ -792,6 +792,19 @@ impl PatternFusion for LayerNormalizationFusion {
         pat_match: &Match,
         graph: &Graph,
     ) -> Result<LayerNormalization, FusionError> {
+        // The fused operator broadcasts scale and bias against the normalized
+        // (last) axis, whereas `Mul` / `Add` broadcast them against the whole
+        // input. The two agree only for scalars and vectors.
+        for name in ["scale", "bias"] {
+            if let Some(id) = pat_match.node_id(name)
+                && !graph.get_rank(id).is_some_and(|ndim| ndim <= 1)
+            {
+                return Err(FusionError::CheckFailed(
+                    "scale or bias is not a scalar or vector",
+                ));
+            }
+        }
+
         let norm_mean = pat_match.node_id("norm_mean").unwrap();
         if !op_applied_to_last_axis::<ReduceMean>(graph, norm_mean) {
             // The LayerNormalization operator supports taking the mean over
@@ -886,6 +899,14 @@ impl PatternFusion for RMSNormalizationFusion {
 
         if !op_applied_to_last_axis::<ReduceMean>(graph, norm_mean) {
             return Err(FusionError::CheckFailed("not applied to last axis"));
+        }
+
+        // The fused operator broadcasts the scale against the normalized
+        // (last) axis, whereas `Mul` broadcasts it against the whole input.
+        // The two agree only for scalars and vectors.
+        let scale = rms_match.node_id("scale").unwrap();
+        if !graph.get_rank(scale).is_some_and(|ndim| ndim <= 1) {
+            return Err(FusionError::CheckFailed("scale is not a scalar or vector"));
         }
 
         Ok(RMSNormalization {
